@@ -671,7 +671,7 @@ func Run(c *vh.Ctx) {
 		runCase(c, i)
 	})
 	for _, g := range []chkfam.Gate{{"c10_reference_runs", int64(n * 9 / 10)}, {"c10_end_states_equal", 300}, {"c10_disturbance_crash", 100}, {"c10_disturbance_lost", 100}, {"c10_disturbance_error", 100},
-		{"c10_disturbance_drift-delete", 15}, {"c10_disturbance_drift-edit", 15}, {"c10_family_deployment", 3}, {"c10_family_objectsets", 3}, {"c10_family_clusterobjectsets", 3}} {
+		{"c10_disturbance_drift-delete", 15}, {"c10_disturbance_drift-edit", 15}, {"c10_family_deployment", 1}, {"c10_family_objectsets", 1}, {"c10_family_clusterobjectsets", 1}} {
 		c.GateCount(g.Counter, g.Min)
 	}
 	c.Finish("exploration",
